@@ -348,7 +348,17 @@ func (r *transport) handleCacheHit(
 		age := freshness.Age.Value + r.clock.Since(freshness.Age.Timestamp)
 		staleFor := age - freshness.UsefulLife
 		if staleFor >= 0 && staleFor < swr {
-			return r.handleStaleWhileRevalidate(req, stored, urlKey, freshness, ccReq)
+			return r.handleStaleWhileRevalidate(
+				req,
+				stored,
+				urlKey,
+				refs,
+				refIndex,
+				freshness,
+				ccReq,
+				isRespNoCacheQualified,
+				respNoCacheFieldsSeq,
+			)
 		}
 	}
 
@@ -399,8 +409,12 @@ func (r *transport) handleStaleWhileRevalidate(
 	req *http.Request,
 	stored *internal.Response,
 	urlKey string,
+	refs internal.ResponseRefs,
+	refIndex int,
 	freshness *internal.Freshness,
 	ccReq internal.CCRequestDirectives,
+	noCacheQualified bool,
+	noCacheFieldsSeq iter.Seq[string],
 ) (*http.Response, error) {
 	req2 := req.Clone(req.Context())
 	req2 = withConditionalHeaders(req2, stored.Data.Header)
@@ -410,7 +424,16 @@ func (r *transport) handleStaleWhileRevalidate(
 	//
 	// Open a discussion at github.com/bartventer/httpcache/issues if your use case requires
 	// guaranteed completion.
-	go r.backgroundRevalidate(req2, stored, urlKey, freshness, ccReq)
+	//
+	// The response handed to the caller belongs to the caller from here on: the
+	// background goroutine gets the entry's ID and loads its own copy.
+	go r.backgroundRevalidate(req2, stored.ID, urlKey, refs, refIndex, freshness, ccReq)
+	if noCacheQualified {
+		for field := range noCacheFieldsSeq {
+			stored.Data.Header.Del(field)
+		}
+	}
+	internal.SetAgeHeader(stored.Data, r.clock, freshness.Age)
 	internal.CacheStatusStale.ApplyTo(stored.Data.Header)
 	r.logger.LogCacheStaleRevalidate(req, urlKey, internal.MiscFunc(func() internal.Misc {
 		return internal.Misc{
@@ -424,8 +447,10 @@ func (r *transport) handleStaleWhileRevalidate(
 
 func (r *transport) backgroundRevalidate(
 	req *http.Request,
-	stored *internal.Response,
+	storedID string,
 	urlKey string,
+	refs internal.ResponseRefs,
+	refIndex int,
 	freshness *internal.Freshness,
 	ccReq internal.CCRequestDirectives,
 ) {
@@ -435,6 +460,11 @@ func (r *transport) backgroundRevalidate(
 	errc := make(chan error, 1)
 	go func() {
 		defer close(errc)
+		stored, err := r.cache.Get(storedID, req)
+		if err != nil {
+			errc <- err
+			return
+		}
 		//nolint:bodyclose // The response is not used, so we don't need to close it.
 		resp, start, end, err := r.roundTripTimed(req)
 		if err != nil {
@@ -454,6 +484,8 @@ func (r *transport) backgroundRevalidate(
 			CCReq:     ccReq,
 			Stored:    stored,
 			Freshness: freshness,
+			Refs:      refs,
+			RefIndex:  refIndex,
 		}
 		//nolint:bodyclose // The response is not used, so we don't need to close it.
 		_, err = r.vrh.HandleValidationResponse(revalCtx, req, resp, nil)
